@@ -13,46 +13,72 @@ def _c(text, ref):
 
 CLAIMED = {
     'C01': _c('pyvc discharges, for all signatures and stores, the obligations of the functions that carry the binding '
-              '(SignatureInfo.__post_init__, get_default, _append_defaults, transform_to_args_kwargs, index_to_key, '
-              'Buildable.__getitem__): slot i of *args is parameter i with its stored value else its default, TypeError iff '
-              'a needed slot has neither, nothing dropped, input store unchanged. The end-to-end clause build == direct '
-              'call (through the traversal and call_buildable) is a bounded exhaustive enumeration and is labelled so.', '§5 C01'),
-    'C02': _c('bounded: invocation log and canonical form of the built graph vs an independent evaluation on every DAG shape '
-              '<= 3-4 nodes, equal-but-distinct nodes, temporaries of registered node types, two builds, chains. '
-              'Deductive part: see evidence (functions under contract for the memo discipline).', '§5 C02'),
+              '(SignatureInfo.__post_init__, get_default, _append_defaults, transform_to_args_kwargs, Buildable.__getitem__, '
+              'ordered_arguments, building.call_buildable, Config.__build__): slot i of *args is parameter i with its stored '
+              'value else its default, TypeError iff a needed slot has neither, nothing dropped, input store unchanged; '
+              'call_buildable hands exactly transform_to_args_kwargs(arguments) to __build__ and Config.__build__ calls the '
+              'configured callable exactly once with exactly those lists (ghost call log). The end-to-end clause build == '
+              'direct call (through the traversal) is a bounded exhaustive enumeration and is labelled so.', '§5 C01'),
+    'C02': _c('pyvc: MemoizedTraversal.apply (memo hit / cycle / one invocation of the traversal function per object id, '
+              'memo pins the value, memo only grows). Bounded: invocation log and canonical form of the built graph vs an '
+              'independent evaluation on every DAG shape <= 3-4 nodes, equal-but-distinct nodes, temporaries of registered '
+              'node types, built objects dropped by their first consumer, two builds, chains.', '§5 C02'),
     'C03': _c('class invariant Canon (BInv) + per-operation contracts against the list/dict reference model, discharged by '
-              'pyvc for _arguments_set_value/_del_value, __setattr__, __delattr__, __getitem__, _set_item_by_index and the '
-              'SignatureInfo kernel; __delitem__, _set_item_by_slice, __setitem__ dispatch, __getattr__ are covered by '
-              'exhaustive small-scope enumeration against the reference model (bounded, labelled).', '§5 C03'),
+              'pyvc for _arguments_set_value/_del_value, __setattr__, __delattr__, __getattr__, __getitem__, __setitem__ and '
+              '__delitem__ with index keys (incl. the *args compaction loop), _set_item_by_index, ordered_arguments and the '
+              'SignatureInfo kernel; slice keys (_set_item_by_slice, slice deletion) are covered by exhaustive small-scope '
+              'enumeration against the reference model (bounded, labelled).', '§5 C03'),
     'C04': _c('pyvc: the PK-by-keyword clause of transform_to_args_kwargs (overridable at call time); bounded: identity sets '
               'across calls for every Partial/ArgFactory nesting and every (signature, store) vs a functools.partial reference.', '§5 C04'),
-    'C05': _c('bounded crash-point enumeration: every Buildable node of every small DAG as the failing node x exception-class '
-              'shapes x diagnostic-formatting failure x repeated failures; deductive part per evidence.', '§5 C05'),
-    'C06': _c('pyvc: get_default (unset vs explicit default for every store key); bounded: all ordered pairs of equality-preserving '
-              '/ -breaking rewrites on every (signature, store), symmetry, transitivity pool, congruence with build, sharing.', '§5 C06'),
-    'C07': _c('bounded: canonical form + identity disjointness for every pool configuration x copier x edit sequence <= 2/3; '
-              'deductive part per evidence.', '§5 C07'),
-    'C08': _c('bounded: path multisets / memoized visits / all-paths queries vs an independent expansion on every DAG shape; '
-              'identity traversal canonical form; cycles; deductive part per evidence.', '§5 C08'),
-    'C09': _c('bounded: leaf domain (ints, floats, escape-like str/bytes, enums, sets, ...) and pool configurations through '
-              'dump/load with recording policies; deductive part per evidence.', '§5 C09'),
-    'C10': _c('bounded: apply_diff(build_diff(old,new), copy(old)) == new on pairs related by <= 2/3 edits, sharing pairs, '
-              'unrelated pairs; two known findings (positional arguments, modification inside tuples).', '§5 C10'),
-    'C14': _c('pyvc: TaggedValue expansion in _arguments_set_value, history of tag updates (add_updated_tags, update_tags); '
-              'bounded: set_tagged / select(tag).replace / list_tags vs an independent walk, survival through copy/cast/JSON, '
-              'tag-operation sequences vs a dict model.', '§5 C14'),
-    'C15': _c('bounded: yielded identity multiset vs independent walk + spec predicate, .set/.replace effects, identity of '
-              'non-matching nodes on DAG shapes <= 3 with class hierarchies; deductive part per evidence.', '§5 C15'),
+    'C05': _c('pyvc: _in_build and try_with_lazy_message (context managers: flag restored on every exit, the escaping exception '
+              'is the original or its decorated proxy), call_buildable, MemoizedTraversal.apply on exceptional exits. Bounded '
+              'crash-point enumeration: every Buildable node of every small DAG as the failing node x exception-class shapes '
+              '(incl. distinct classes sharing module and qualified name) x diagnostic-formatting failure x repeated failures.', '§5 C05'),
+    'C06': _c('pyvc: _compare_buildable at value level (check_dag=False: exact iff-characterisation — same class, equal '
+              'callables, every key set on either side has value-or-default on both sides and they are equal; never raises '
+              'except the internal has_var_keyword assertion; frame) and get_default. Bounded: all ordered pairs of '
+              'equality-preserving / -breaking rewrites on every (signature, store), container-type pairs, symmetry, '
+              'transitivity pool, congruence with build, sharing (the DAG phase of == is bounded only).', '§5 C06'),
+    'C07': _c('pyvc: _buildable_flatten, BuildableTraverserMetadata.arguments/tags/history, Buildable.__init_callable__, '
+              '__unflatten__, __copy__ (copy.copy gives a fresh Buildable satisfying the representation invariant, same '
+              'class/callable/signature, fresh argument dict with the same shared values, fresh tag sets and history lists) '
+              'and 5 lemmas over these contracts: an edit (setattr/delattr/setitem) of the copy modifies nothing that '
+              'existed before, an edit of the original leaves the copy what it was. deepcopy / pickle / cast / copy_with are '
+              'bounded: canonical form + identity disjointness for every pool configuration x copier x edit sequence <= 2/3.', '§5 C07'),
+    'C08': _c('pyvc: _buildable_flatten, _buildable_path_elements, ordered_arguments, MemoizedTraversal.apply and the lemma '
+              '"following the i-th path element of a Buildable yields (is) its i-th flattened value" (path soundness at '
+              'Buildable nodes, all inputs). Bounded: path multisets / memoized visits / all-paths queries vs an independent '
+              'expansion on every DAG shape, identity traversal canonical form, cycles, late registration.', '§5 C08'),
+    'C09': _c('pyvc: Deserialization._deserialize_ref / _deserialize_pyref (a python reference is imported only through '
+              'import_symbol with the instance policy). Bounded: leaf domain (ints, floats, escape-like str/bytes, enums, '
+              'sets, ...) and pool configurations through dump/load with recording policies.', '§5 C09'),
+    'C10': _c('pyvc: the diff operations SetValue / ModifyValue / DeleteValue / AddTag / RemoveTag .apply (each is exactly the '
+              'corresponding edit contract on Attr / Index / Key children, ValueError otherwise, nothing else changes), '
+              '_path_element_is_compatible, _child_has_value. Bounded: apply_diff(build_diff(old,new), copy(old)) == new on '
+              'pairs related by <= 2/3 edits, sharing pairs, unrelated pairs; two known findings (positional arguments, '
+              'modification inside tuples).', '§5 C10'),
+    'C14': _c('pyvc: add_tag, remove_tag, clear_tags, set_tags (loop invariant over the tag collection), get_tags, '
+              'tagged_value_fn, TaggedValue expansion in _arguments_set_value incl. its exact history, AddTag/RemoveTag.apply; '
+              'bounded: set_tagged / select(tag).replace / list_tags vs an independent walk (incl. equal-but-distinct '
+              'values), survival through copy/cast/JSON, tag-operation sequences vs a dict model.', '§5 C14'),
+    'C15': _c('pyvc: NodeSelection._matches, move_buildable_internals. Bounded: yielded identity multiset vs independent walk '
+              '+ spec predicate, .set/.replace effects, identity of non-matching nodes on DAG shapes <= 3 with class hierarchies.', '§5 C15'),
     'C16': _c('pyvc: history.new_value/deleted_value/update_tags (sequence id = counter, counter+1), History.add_* (exactly one '
-              'entry iff tracking enabled), _arguments_set_value/_del_value, __setattr__/__delattr__, _set_item_by_index '
-              '(one store write => one entry); bounded: history invariant after every C03 edit, suspension, locations. '
-              'Uniqueness across threads rests on the atomicity of next() (assumed). One known finding (tag-edit location).', '§5 C16'),
-    'C17': _c('pyvc: frame conditions (input store unchanged) of transform_to_args_kwargs and __getitem__; bounded: 44 API entry '
-              'points x pool configurations, canonical form + identity map before = after.', '§5 C17'),
-    'C18': _c('bounded: flattened printer paths vs override parser on the property domain, directive sequences vs sequential '
-              'application, serializer round trips; deductive part per evidence.', '§5 C18'),
-    'C20': _c('pyvc: get_default (== is kept when defaults are materialized/trimmed); bounded: build(t(cfg)) structurally equal to '
-              'build(cfg) for each transformation on the extended pool, idempotence, serializability.', '§5 C20'),
+              'entry iff tracking enabled; the tag snapshot), suspend_tracking, _arguments_set_value/_del_value, '
+              '__setattr__/__delattr__, __setitem__/__delitem__ (index keys), _set_item_by_index, add_tag/remove_tag/'
+              'clear_tags/set_tags (exact number, order, key and content of the appended entries); bounded: history invariant '
+              'after every C03 edit, suspension, locations, canonical keys, threads. Uniqueness across threads rests on the '
+              'atomicity of next() (assumed). One known finding (tag-edit location); one defect fixed (set_tags by index).', '§5 C16'),
+    'C17': _c('pyvc: frame conditions (nothing that existed is modified) of transform_to_args_kwargs, __getitem__, __getattr__, '
+              'ordered_arguments, _compare_buildable, metadata.tags/history; bounded: 44 API entry points x pool '
+              'configurations, canonical form + identity map before = after.', '§5 C17'),
+    'C18': _c('pyvc: FiddleFlag.value (every queued directive is applied exactly once, strictly in queue order, with its own '
+              'command and expression; malformed / wrong first directive -> ValueError). Bounded: flattened printer paths vs '
+              'override parser on the property domain, directive sequences vs sequential application, serializer round '
+              'trips, mutable literals fresh per directive.', '§5 C18'),
+    'C20': _c('pyvc: materialize_defaults per-node step (every defaulted, non-default_factory parameter set under its canonical '
+              'key, nothing else changes, fixpoint) and get_default; bounded: build(t(cfg)) structurally equal to build(cfg) '
+              'for each transformation on the extended pool, idempotence, serializability.', '§5 C20'),
 }
 NA = {
     'C11': 'quantifies over programs: needs a formal semantics of rewritten Python programs, no per-function contract expresses it',
